@@ -153,6 +153,7 @@ def gen(rng, tier):
           # bindings argument of parse_config_files_and_bindings)
           'entry': rng.choice(['file', 'file', 'file', 'string', 'string',
                                'lines', 'extra_bindings']),
+          'decoy': rng.random() < 0.4,
           'ambient': rng.choice(['', 'amb']), 'followup': follow,
           'final_newline': rng.random() < 0.8,
           'only': None}   # or [unit index, kind] to run a single fault point
@@ -242,7 +243,14 @@ def _setup(case, files, fault_plan=None):
   probes.plant_module('vsim_mods.beta')
   texts = {n: cfgtext.file_text(f, case.get('final_newline', True))
            for n, f in files.items()}
-  fs = vfs.VFS([['', 0, texts]], nreaders=1, faults=fault_plan)
+  if case.get('decoy'):
+    # a second reader that has a file of every name as well: never consulted,
+    # since the first reader finds each file
+    decoys = {n: 'f1.b = 424242\n' for n in texts}
+    fs = vfs.VFS([['', 0, texts], ['', 1, decoys]], nreaders=2,
+                 faults=fault_plan)
+  else:
+    fs = vfs.VFS([['', 0, texts]], nreaders=1, faults=fault_plan)
   fs.register(gin)
   for b in case['initial']:
     gin.bind_parameter((b['scope'], b['sel'], b['param']), b['val'])
@@ -514,6 +522,67 @@ def run(case):
       v('C16.later_parse', [kind, type(e).__name__],
         '%s: follow-up parse raised %s: %s' %
         (where, type(e).__name__, probes.scrub(str(e))[:300]))
+
+  # ---- the same text parsed into a finalized (locked) configuration: the first
+  # statement that binds something is the one that fails, located like any other
+  # semantic error, with the statements before it (imports) carried out
+  if not case.get('only'):
+    k0 = None
+    for k, u in enumerate(units):
+      s0 = u['stmt']
+      if u['kind'] == 'member' or (u['kind'] == 'stmt' and s0 and
+                                   s0.get('k') in ('bind', 'macro')):
+        k0 = k
+        break
+    if k0 is not None:
+      world.reset()
+      fs, texts = _setup(case, case['files'])
+      before = _snapshot()
+      exc = None
+      try:
+        gin.finalize()
+        _parse(case, fs, texts)
+      except Exception as e:  # pylint: disable=broad-except
+        exc = e
+      cnt['locked_parses'] = cnt.get('locked_parses', 0) + 1
+      lg.add('locked', k0, type(exc).__name__ if exc else None)
+      u = units[k0]
+      if not isinstance(exc, RuntimeError):
+        v('C16.error_class', ['locked', type(exc).__name__ if exc else 'none'],
+          'parsing into a finalized configuration raised %r, expected '
+          'RuntimeError at unit %d' % (exc, k0))
+      else:
+        if _snapshot() != before:
+          v('C16.prefix_exact', ['locked', 'other'],
+            'a parse rejected by the lock changed the store')
+        msg = str(exc)
+        chain = u['chain']
+        for depth, (fn, ci) in enumerate(chain):
+          ln = cfgtext.chunk_line(case['files'][fn], ci)
+          if depth == len(chain) - 1 and u['kind'] == 'member':
+            # header line + the member's offset in the layout (blank lines)
+            clines = case['files'][fn]['chunks'][ci]['lines']
+            mname = u['stmt']['members'][u['j']][0]
+            for off, text in enumerate(clines[1:], 1):
+              if text.strip().startswith(mname + ' ='):
+                ln = ln + off
+                break
+          fname = 'bindings string' if (fn == case['root'] and
+                                        root_is_string) else fn
+          pat = re.compile(r'(?<![\w.])%d(?![\w.])' % ln)
+          hits = [l for l in msg.split('\n')
+                  if fname in l and pat.search(l.replace(fname, ''))]
+          if len(hits) != 1:
+            v('C16.error_location', ['locked', 'level-%d-of-%d' %
+                                     (depth, len(chain))],
+              'parse into a finalized configuration: the message names %r '
+              'line %d in %d lines (expected once per include level; the '
+              'first binding is unit %d).\n%s' %
+              (fname, ln, len(hits), k0, probes.scrub(msg)[:600]))
+            break
+        if not gin.config_is_locked():
+          v('C16.state_restored', ['unlocked-by-failed-parse'],
+            'the configuration is no longer locked after the rejected parse')
 
   # ---- storage faults, relaxed oracle ----------------------------------------
   if not case.get('only') and case['entry'] == 'file':
